@@ -23,13 +23,13 @@ func init() { core.Register(c18{}) }
 func (c18) ID() string    { return "C18" }
 func (c18) Level() string { return "exploration" }
 func (c18) Rule() string {
-	return "cases = merge scenarios (histories with keys of length 1..2000 incl. keys made of 0x80..0xff bytes and keys that look like a varint prefix followed by data, deletes, batches, 1..6 output files, empty output, second merge over an adopted one with a stale hint file present, both I/O types); after EACH successful Merge and before adoption vfmt decodes the hint file and the rewritten data files of <dir>-merge: every entry's (fid, block, offset) must hold a plain record with exactly that key occupying exactly `size` bytes, and the multiset of hinted keys must equal the multiset of keys stored in the rewritten files; then two copies of the directories are opened: A = as left by Merge (adoption through the hint), B = rewritten files moved into place by the harness with no hint file and no merge directory (scan path); dumps, KeyNum and DiskSize-ReclaimableSize of A and B must agree with each other and with the model; the real directory then adopts and is compared too. Non-trivial: merge whose hint has >=3 entries over >=2 output files incl. >=1 key with a high-bit byte; distinct = hash of (config, op list)"
+	return "cases = merge scenarios (histories with keys of length 1..2000 incl. keys made of 0x80..0xff bytes and keys that look like a varint prefix followed by data, deletes, batches, 1..6 output files, empty output, second merge over an adopted one with a stale hint file present, both I/O types); after EACH successful Merge and before adoption vfmt decodes the hint file and the rewritten data files of <dir>-merge: every entry's (fid, block, offset) must hold a plain record with exactly that key occupying exactly `size` bytes, and the multiset of hinted keys must equal the multiset of keys stored in the rewritten files; then two copies of the directories are opened: A = as left by Merge (adoption through the hint), B = rewritten files moved into place by the harness with no hint file and no merge directory (scan path); dumps, KeyNum and DiskSize-ReclaimableSize of A and B must agree with each other and with the model; the real directory then adopts and is compared too. In every third case the adopting Opens (A, B and the real one) run under a configuration that differs from the one Merge ran under (smaller or larger DataFileSize, other index type, shard count, I/O type): none of these is stored in the directory. Non-trivial: merge whose hint has >=3 entries over >=2 output files incl. >=1 key with a high-bit byte; distinct = hash of (config, op list)"
 }
 func (c18) Assumptions() []string {
 	return []string{"vfmt decodes hint and data files independently of the engine"}
 }
 func (c18) Required() []string {
-	return []string{"merges_audited", "hint_entries_checked", "two_path_opens", "keys_highbit", "multi_file_outputs", "second_merges"}
+	return []string{"merges_audited", "hint_entries_checked", "two_path_opens", "keys_highbit", "multi_file_outputs", "second_merges", "adoptions_under_changed_config", "adoptions_under_smaller_file_size"}
 }
 
 func (c18) Cases(tier string, seed uint64) []core.Case {
@@ -254,6 +254,27 @@ func (c18) Run(c core.Case, w *core.Worker) core.Result {
 		// ---- two-path Open on copies
 		if !s.Close() {
 			break
+		}
+		if c.Index%3 == 1 {
+			// the adopting Open runs under another configuration than the Merge did: none of
+			// DataFileSize (a rotation threshold only), index type, shard count and I/O type is
+			// stored in the directory, so every combination must load the same index
+			ncfg := s.Cfg
+			ncfg.DataFileSize = []int64{4 << 10, 8 << 10, 16 << 10, 40 << 10, 256 << 10, 1 << 20}[r.Intn(6)]
+			if r.Chance(1, 2) {
+				ncfg.DataFileSize = max(s.Cfg.DataFileSize/int64(r.Range(2, 16)), 1<<10)
+			}
+			ncfg.IndexType = core.IndexTypes[r.Intn(3)]
+			ncfg.ShardNum = core.ShardNums[r.Intn(6)]
+			if r.Chance(1, 2) {
+				ncfg.FileIO = 1 - ncfg.FileIO
+			}
+			if ncfg.DataFileSize < s.Cfg.DataFileSize {
+				res.Add("adoptions_under_smaller_file_size", 1)
+			}
+			s.Log = append(s.Log, "adopting-config "+ncfg.String())
+			s.Cfg = ncfg
+			res.Add("adoptions_under_changed_config", 1)
 		}
 		copyA, copyB := w.Dir("A"), w.Dir("B")
 		if err := mon.CopyTree(root, copyA); err != nil {
